@@ -393,6 +393,56 @@ fn check_wildcard_inner(world: usize, target: &str) -> Verdict {
     check_world(refs, subject, target, &format!("world {world}"))
 }
 
+/// `*==` combined with other terms on the same path, evaluated where hops really happen: the
+/// compound filter `<wild> and|or <term>` (both orders) over a ref world; <term> ranges over
+/// == / != against the target and the first hop, has / missing of the path and of a sub-path.
+fn compound_terms(target: &str) -> Vec<F> {
+    let a = || vec!["a".to_string()];
+    vec![
+        F::Cmp(a(), Op::Eq, V::Ref(target.into(), None)),
+        F::Cmp(a(), Op::Ne, V::Ref(target.into(), None)),
+        F::Cmp(a(), Op::Eq, V::Ref("r1".into(), None)),
+        F::Cmp(a(), Op::Ne, V::Ref("r2".into(), None)),
+        F::Cmp(a(), Op::Eq, V::str("r1")),
+        F::Has(a()),
+        F::Missing(a()),
+        F::Has(vec!["a".into(), "x".into()]),
+        F::Has(vec!["a".into(), "a".into()]),
+        F::Missing(vec!["a".into(), "a".into(), "x".into()]),
+        F::Has(vec!["x".into()]),
+        F::Wild(a(), "r2".into(), None),
+    ]
+}
+
+fn check_compound(world: usize, target: &str, shape: usize, term: usize) -> Verdict {
+    let (refs, subject) = &wildcard_worlds()[world];
+    let w = F::Wild(vec!["a".into()], target.into(), None);
+    let t = compound_terms(target)[term].clone();
+    let f = match shape {
+        0 => F::And(vec![w, t]),
+        1 => F::And(vec![t, w]),
+        2 => F::Or(vec![w, t]),
+        3 => F::Or(vec![t, w]),
+        4 => F::And(vec![w.clone(), t, w]),
+        _ => F::Or(vec![F::And(vec![w.clone(), t.clone()]), t]),
+    };
+    let want = eval(&f, subject, refs).unwrap();
+    let resolver = MapResolver { refs: refs.iter().map(|(k, v)| (k.clone(), lib_dict(v))).collect() };
+    let d = lib_dict(subject);
+    let lf = to_lib_filter(&f);
+    let got = guarded(|| lf.eval(&EvalContext::make(&d, &DEFAULT_NS, &resolver))).map_err(|p| ("wildcard-compound-panic".to_string(), p))?;
+    if got != want {
+        return Err(("wildcard-compound".into(), format!("{} in world {world} ({refs:?}, subject {subject:?}): library {got}, reference {want}", crate::model::filter_ref::print_canonical(&f))));
+    }
+    // one context reused for two evaluations gives the same answers
+    let ctx = EvalContext::make(&d, &DEFAULT_NS, &resolver);
+    let (g1, g2) = (lf.eval(&ctx), lf.eval(&ctx));
+    if g1 != want || g2 != want {
+        return Err(("wildcard-compound:context-reused".into(), format!("{} in world {world}: a reused context answers {g1} then {g2}, reference {want}", crate::model::filter_ref::print_canonical(&f))));
+    }
+    Ok(())
+}
+
 /// a chain c0 -> c1 -> ... -> c(len-1) whose last record points nowhere or back to c(back)
 /// (a rho shape); the subject points to c0
 fn long_world(len: usize, back: Option<usize>) -> (RefMap, Tags) {
@@ -465,7 +515,7 @@ fn check_grid(rows: &[Tags], f: &F) -> Verdict {
 
 pub fn run(tier: Tier) -> i32 {
     let mut run = Run::new("C07", tier, "model_checking");
-    run.rule = "programs = filter trees built from the public node structs: every single leaf (has/missing over 8 paths of 1-4 segments; 6 operators x 18 literals of every literal kind x 4 paths) on 240 records (tag a over 40 values of every kind incl. Null, lists, nested dicts; b, n present/absent); every and/or/parens shape with <= 3 leaves over a kind-distinct leaf core and 7 shapes with 4 leaves (and-of-ors, or-of-ands, mixed precedence, nested groups) over a 7/20-leaf core; == / != of nine unit-carrying literals against the same magnitude under every database unit (bare and in a list); `*==` against a caller-supplied resolver over 80 ref worlds (chains 0-3, 1- and 2-cycles, dangling ids answered with nothing / an empty record / a record without the tag) and over ref chains of every length 1-40 and around 64, 100, 256, 1000 ending nowhere / at the first / middle / last record, with every record as the target; Grid::filter / filter_all on every grid of <= 3 rows over 8 records. Oracle: reference evaluator written from the statement (unit-mismatched ordering = unconstrained, skipped). states = filters, transitions = (filter, record) evaluations = traces validated; non-trivial = filter that is true on some record and false on another".into();
+    run.rule = "programs = filter trees built from the public node structs: every single leaf (has/missing over 8 paths of 1-4 segments; 6 operators x 18 literals of every literal kind x 4 paths) on 240 records (tag a over 40 values of every kind incl. Null, lists, nested dicts; b, n present/absent); every and/or/parens shape with <= 3 leaves over a kind-distinct leaf core and 7 shapes with 4 leaves (and-of-ors, or-of-ands, mixed precedence, nested groups) over a 7/20-leaf core; == / != of nine unit-carrying literals against the same magnitude under every database unit (bare and in a list); `*==` against a caller-supplied resolver over 80 ref worlds (chains 0-3, 1- and 2-cycles, dangling ids answered with nothing / an empty record / a record without the tag) and over ref chains of every length 1-40 and around 64, 100, 256, 1000 ending nowhere / at the first / middle / last record, with every record as the target; `*==` combined (and / or, both orders, three-term shapes) with 12 other terms on the same path — == / != against the target and the first hop, has / missing of the path and its sub-paths, a second `*==` — in every ref world, also with one EvalContext reused for two evaluations; Grid::filter / filter_all on every grid of <= 3 rows over 8 records. Oracle: reference evaluator written from the statement (unit-mismatched ordering = unconstrained, skipped). states = filters, transitions = (filter, record) evaluations = traces validated; non-trivial = filter that is true on some record and false on another".into();
     run.assume("value equality of the filter language: same kind and value, Ref by id, DateTime by instant");
     run.assume("`^symbol` is covered by C13; relationship terms are only exercised for termination (C09)");
     crate::engine::quiet_panics();
@@ -580,6 +630,25 @@ pub fn run(tier: Tier) -> i32 {
     });
     run.absorb(l);
 
+    // `*==` combined with other terms on the same path, in every ref world
+    {
+        let nt = compound_terms("r1").len();
+        let l = par_for(nw, |w, local| {
+            for target in ["r1", "r2", "r3", "zz", "nope"] {
+                for shape in 0..6usize {
+                    for term in 0..nt {
+                        local.eval();
+                        local.transitions += 1;
+                        local.count("wildcard-compound-cases");
+                        if let Err((sig, d)) = check_compound(w, target, shape, term) {
+                            local.fail(&sig, json!({"wildcard_world": w, "target": target, "compound": [shape, term]}), d);
+                        }
+                    }
+                }
+            }
+        });
+        run.absorb(l);
+    }
     // long ref chains and rho shapes: every length 1..=40 and around 64 / 100 / 256 / 1000, the
     // last record pointing nowhere, to the first, the middle or itself; every record of the chain
     // (and an unknown id) as the target
@@ -661,6 +730,10 @@ pub fn run(tier: Tier) -> i32 {
 pub fn replay(case: &J) -> Verdict {
     if let Some(n) = case.get("long_chain").and_then(|x| x.as_u64()) {
         return check_long(n as usize, case["back"].as_u64().map(|b| b as usize), case["target"].as_str().unwrap_or(""));
+    }
+    if let Some(c) = case.get("compound").and_then(|c| c.as_array()) {
+        let w = case["wildcard_world"].as_u64().unwrap_or(0) as usize;
+        return check_compound(w, case["target"].as_str().unwrap_or(""), c[0].as_u64().unwrap_or(0) as usize, c[1].as_u64().unwrap_or(0) as usize);
     }
     if let Some(w) = case.get("wildcard_world") {
         return check_wildcard(w.as_u64().unwrap() as usize, case["target"].as_str().unwrap());
